@@ -4,6 +4,7 @@
 package posex
 
 import (
+	"context"
 	"encoding/binary"
 	"hash"
 	"io"
@@ -78,4 +79,13 @@ func asksForGzipItself(req *http.Request) {
 // "varints read strictly").
 func readsPaddedVarint(r io.ByteReader) (uint64, error) {
 	return binary.ReadUvarint(r)
+}
+
+// handsOutResponseOfCancelledRequest derives a context for the request and
+// cancels it when it returns — before the caller has read the body (positive
+// example for C19 "response body readable").
+func handsOutResponseOfCancelledRequest(ctx context.Context, c *http.Client, req *http.Request) (*http.Response, error) {
+	ctx, cancel := context.WithCancel(ctx)
+	defer cancel()
+	return c.Do(req.WithContext(ctx))
 }
